@@ -48,6 +48,12 @@ pub enum ContractError {
     #[error("max_concurrent_farms cannot be set to zero")]
     UnspecifiedConcurrentFarms,
 
+    #[error("max_concurrent_farms cannot exceed {max}")]
+    TooManyConcurrentFarms {
+        /// The maximum value max_concurrent_farms can be set to
+        max: u32,
+    },
+
     #[error("Farm doesn't exist")]
     NonExistentFarm,
 
